@@ -5,6 +5,7 @@
 pub mod engine;
 pub mod fuzz_entry;
 pub mod generated;
+pub mod noise;
 pub mod props;
 pub mod refs;
 pub mod transport;
